@@ -67,7 +67,7 @@ def main():
         setup_cmd="bin/setup",
         hooks=dict(
             guard="verif",
-            enable="go build -tags verif,verif_fiat,verif_swu,verif_mul,verif_secec,verif_btc,verif_h2c (bin/check drops a group tag automatically when that group's hooks do not build on the tree under test)",
+            enable="go build -tags verif,verif_fiat,verif_swu,verif_mul,verif_secec,verif_btc,verif_btcparse,verif_h2c (bin/check drops a group tag automatically when that group's hooks do not build on the tree under test)",
             baseline_off_cmd="cd /repo && go test -vet=off -count=1 -timeout 25m ./...",
             source_commits=commits,
             add_only=True),
